@@ -41,6 +41,10 @@ EXTRA_INPUTS = [
     # top-level parameters held as XObjects and never cleared by the caller (seed C19_f: the holders outlive the factory)
     ("params", _p("s1.xsl"), _p("s1.xml")),
     ("params", _p("s3.xsl"), _p("s3.xml")),
+    # the engine-level API: StylesheetConstructionContext::destroy(root) (repaired defect: plain delete of a root that
+    # StylesheetRoot::create() took from the manager)
+    ("lowlevel", _p("s1.xsl"), _p("s1.xml")),
+    ("lowlevel", _p("s4.xsl"), _p("s4.xml")),
 ]
 
 # inputs in the class of a known finding of the no-injection balance run: {stylesheet basename: finding id}
